@@ -328,7 +328,7 @@ PROPS["C01"] = {
     "gen_items": ["sm2."],
     "level": "proof",
     "claim": "Spec.SM2 is GM/T 0003.2 in Lean (reproduces the standard's example signature). Theorems: the completeness algebra verify(sign) over any commutative group with [q]G = O; r, s outside [1,n-1] or r+s = 0 mod n are rejected whatever else; a signature valid for digest e is accepted for e' iff e' = e mod n (exact characterisation: soundness against altered messages/IDs reduces to SM3); the strict DER codec of SEQUENCE{INTEGER r, INTEGER s} round-trips for all r,s < 2^256 and rejects trailing bytes. The real Sm2Sign/Sign/Sm2Verify/Verify are compared with the spec (exact r,s for the same nonce bytes, number of random bytes consumed, DER bytes, acceptance of every single-field perturbation and non-canonical encoding) on every run. Added (Proofs.SM2Affine / Props.SM2Group): the executable affine spec IS the group: padd_eq and smul_eq identify Spec.SM2.padd / smul (Fermat inversion, double-and-add) with addition and scalar multiplication of Mathlib's Weierstrass point group over ZMod p for every valid point (p, n prime by the Pratt/Lucas certificates), toPoint_inj transfers equalities back; hence verify_signWith: every signature signWith produces for any private key 1 <= d < n-1, digest e and nonce 1 <= k < n verifies under the public key [d]G — with no group-law hypothesis left.",
-    "note": "Hardness is never assumed as an axiom: soundness is the characterisation theorem. The group-law facts the completeness algebra needs are C03's. Not proved: der_canonical (decode b = some (r,s) -> b = encode (r,s)); 'two signatures never share r' is reduced to fresh reader bytes (nonce = f(40 fresh bytes), checked by the consumed-bytes count in the correspondence).",
+    "note": "Hardness is never assumed as an axiom: soundness is the characterisation theorem. The group-law facts the completeness algebra needs are C03's. Signature DER is canonical: decSig b = some (r,s) iff b = encSig r s (Props.C14Codec.der_canonical_iff). Not proved: 'two signatures never share r' is reduced to fresh reader bytes (nonce = f(40 fresh bytes), checked by the consumed-bytes count in the correspondence).",
     "trusted_base": ["Spec.SM2.signWith/verifyE/za transcribe GM/T 0003.2; tie to sm2.go by sm2sign/sm2signder/sm2verify/sm2verifyder correspondence with deterministic readers; cryptobyte DER parsing is x/crypto code"],
     "assumptions": ["none at the level of the specification (Spec.SM2 is proved to be the group: Proofs.SM2Affine); that the Go limb arithmetic computes the same values is tied by the correspondence run (C03)"],
     "not_proved": ["distinct_nonce_distinct_r"],
